@@ -17,7 +17,8 @@ EXPLANATION = (
     "every argument bound to an expression-typed field of an ast constructor anywhere in the simplifier is AST-typed, never a python "
     "scalar, and string-typed fields never receive nodes (R3); the only exception the simplifier raises is FuncADLIndexError and no "
     "assert depends on the selector (R4); no raw sub-tree (un-substituted selector or value) reaches the output of the projection "
-    "entries (R5, shared engine with C14.R1)."
+    "entries (R5, shared engine with C14.R1); the frame discipline of called lambdas (fresh frame keys, arguments visited, guard on the "
+    "call shape) is the one C02 requires, so an index written for an outer object never meets a literal bound to a parameter (R8)."
 )
 NOT_DECIDED = "termination of the rewriting (a decreasing measure is a hand proof, not a shape) and compile-ability of every output."
 
@@ -117,6 +118,15 @@ def check(run: Run) -> None:
     from .c02 import _check_call_stack
 
     _check_call_stack(Relabel(run, "C18.R6"), ctx, m)
+
+    # ---------------- R8: which literal a selector meets is decided by binder resolution
+    run.rule("C18.R8", "beta-reduction of called lambdas resolves every name against its own binder (C02.R3a/b/c/f re-evaluated): a selector meant for an outer object must not land on a literal bound to a parameter of the same name")
+    from .c02 import _check_beta
+
+    vcall = cls.methods.get("visit_Call")
+    if vcall is None:
+        raise AnalysisError("anchor vanished: simplify_chained_calls.visit_Call")
+    _check_beta(Relabel(run, "C18.R8"), ctx, m, cls, vcall)
 
     # ---------------- R7: the simplifier edits the nodes it is given only through generic_visit
     run.rule("C18.R7", "no method of simplify_chained_calls edits a field of a node it was handed other than through generic_visit (no append / += / item store on an alias of node.<field>)")
